@@ -431,7 +431,7 @@ class TT():
             torchtt.TT: the result.
         """
 
-        if np.isscalar(other) or (tn.is_tensor(other) and tn.numel(other) == 1):
+        if (np.isscalar(other) and not isinstance(other, (str, bytes))) or (tn.is_tensor(other) and tn.numel(other) == 1):
             # the second term is a scalar
             cores = []
 
@@ -562,7 +562,7 @@ class TT():
         Returns:
             torchtt.TT: the result.
         """
-        if np.isscalar(other) or (tn.is_tensor(other) and tn.numel(other) == 1):
+        if (np.isscalar(other) and not isinstance(other, (str, bytes))) or (tn.is_tensor(other) and tn.numel(other) == 1):
             # the second term is a scalar
             cores = []
 
